@@ -115,7 +115,19 @@ Definition mcheck {St} (step : St -> smop -> St * obs) (stop_ok : St -> Z -> lis
 Inductive ccop :=
 | CC (o : cop)
 | CHeld        (* the keys of c.data *)
-| CSize.       (* Cache.size() *)
+| CSize        (* Cache.size() *)
+| CJoin (k v : Z).
+   (* free-running histories only: a Take that did not run its loader and returned v, the
+      value loaded by an overlapping Take of the same key.  Either it hit (then it is an
+      ordinary Take hit), or it missed and was handed the result of the other Take's single
+      flight (syncx.SingleFlight: its linearisation point is its own missed look-up, which
+      leaves the cache as it is; that the other Take exists is checked by [joins_ok]). *)
+
+Definition join_obs (v : Z) (r : obs) : obs :=
+  match r with
+  | OTake None true => OTake (Some v) false
+  | _ => r
+  end.
 
 Fixpoint cc_run (c : cache) (ops : list ccop) : list obs :=
   match ops with
@@ -123,6 +135,7 @@ Fixpoint cc_run (c : cache) (ops : list ccop) : list obs :=
   | CC o :: ops' => let '(c', r, _) := c_step c o in r :: cc_run c' ops'
   | CHeld :: ops' => OList (map fst (cdata c)) :: cc_run c ops'
   | CSize :: ops' => ONum (alen (cdata c)) :: cc_run c ops'
+  | CJoin k v :: ops' => let '(c', r, _) := c_step c (CTake k None) in join_obs v r :: cc_run c' ops'
   end.
 
 Fixpoint sc_run (s : scache) (ops : list ccop) : list obs :=
@@ -131,6 +144,7 @@ Fixpoint sc_run (s : scache) (ops : list ccop) : list obs :=
   | CC o :: ops' => let '(s', r, _) := s_step s o in r :: sc_run s' ops'
   | CHeld :: ops' => OList (map fst (sents s)) :: sc_run s ops'
   | CSize :: ops' => ONum (Z.of_nat (length (sents s))) :: sc_run s ops'
+  | CJoin k v :: ops' => let '(s', r, _) := s_step s (CTake k None) in join_obs v r :: sc_run s' ops'
   end.
 
 (* one step, for the linearisation search *)
@@ -139,6 +153,7 @@ Definition cc_step (c : cache) (o : ccop) : cache * obs :=
   | CC o => let '(c', r, _) := c_step c o in (c', r)
   | CHeld => (c, OList (map fst (cdata c)))
   | CSize => (c, ONum (alen (cdata c)))
+  | CJoin k v => let '(c', r, _) := c_step c (CTake k None) in (c', join_obs v r)
   end.
 
 Definition sc_step (s : scache) (o : ccop) : scache * obs :=
@@ -146,7 +161,23 @@ Definition sc_step (s : scache) (o : ccop) : scache * obs :=
   | CC o => let '(s', r, _) := s_step s o in (s', r)
   | CHeld => (s, OList (map fst (sents s)))
   | CSize => (s, ONum (Z.of_nat (length (sents s))))
+  | CJoin k v => let '(s', r, _) := s_step s (CTake k None) in (s', join_obs v r)
   end.
+
+(* every joined Take overlaps a Take of the same key that ran its loader and got that value *)
+Definition overlaps {Op} (a b : lev Op) : bool := (lcall a <? lret b) && (lcall b <? lret a).
+
+Definition loads (k v : Z) (e : lev ccop) : bool :=
+  match lop e, lobs e with
+  | CC (CTake k' (Some v')), OTake (Some v'') true => (k' =? k) && (v' =? v) && (v'' =? v)
+  | _, _ => false
+  end.
+
+Definition joins_ok (evs : list (lev ccop)) : bool :=
+  forallb (fun e => match lop e with
+                    | CJoin k v => existsb (fun a => loads k v a && overlaps a e) evs
+                    | _ => true
+                    end) evs.
 
 (* every size / key set the implementation reported is within the limit *)
 Fixpoint sizes_ok (limit : Z) (ops : list ccop) (seen : list obs) : bool :=
@@ -374,7 +405,7 @@ Definition prop_ok (c : case) : bool :=
     if 1 <=? n then linearisable_b (hist_step (Z.to_nat n)) false (run_pre (hist_step (Z.to_nat n)) [] pre) evs
     else true
   | KLinCache limit pre evs =>
-    linearisable_b sc_step true (run_pre sc_step (s_new limit) pre) evs
+    joins_ok evs && linearisable_b sc_step true (run_pre sc_step (s_new limit) pre) evs
   | KLinWindow size iv t0 ig evs =>
     if (1 <=? size) && (0 <? iv) then linearisable_b (wl_spec_step ig) true [] evs else true
   end.
